@@ -186,7 +186,7 @@ func (h harness) seq(r *vx.Run) *vx.Seq[*sys] {
 			return ""
 		}
 		f := inner(s, i)
-		if sup := os.Getenv("VERIF_SUPPRESS"); sup != "" && f != "" && strings.Contains(f, sup) {
+		if sup := os.Getenv("VERIF_SUPPRESS"); sup != "" && f != "" && containsAny(f, sup) {
 			// mutation demonstrations only: a failure class already reported is counted, not raised,
 			// and the history is not extended
 			r.Count("suppressed_cases", 1)
@@ -398,4 +398,14 @@ func main() {
 		mk(c).seq(r).Explore()
 	}
 	r.Finish()
+}
+
+// containsAny reports whether f contains one of the comma-separated substrings.
+func containsAny(f, list string) bool {
+	for _, s := range strings.Split(list, ",") {
+		if s != "" && strings.Contains(f, s) {
+			return true
+		}
+	}
+	return false
 }
